@@ -331,3 +331,31 @@ impl Default for FreeSpaceManager {
         Self::new()
     }
 }
+
+#[cfg(feature = "verif")]
+impl FreeSpaceManager {
+    /// Free runs as (start, size), read from the by-start and by-size views separately.
+    pub fn verif_runs(&self) -> (Vec<(u64, u64)>, Vec<(u64, u64)>) {
+        let by_start = self
+            .by_start
+            .iter()
+            .map(|(start, space)| {
+                debug_assert_eq!(*start, space.start);
+                (space.start, space.size)
+            })
+            .collect();
+        let by_size = self
+            .by_size
+            .iter()
+            .map(|((size, start), space)| {
+                debug_assert_eq!((*size, *start), (space.size, space.start));
+                (space.start, space.size)
+            })
+            .collect();
+        (by_start, by_size)
+    }
+
+    pub fn verif_device_size(&self) -> u64 {
+        self.device_size
+    }
+}
